@@ -370,6 +370,10 @@ func (s *socket) MaybeUpgrade(transport transports.Transport) {
 				transport.Close(func() {
 					s.OnClose("forced close")
 				})
+			} else if s.ReadyState() == "closed" {
+				// the session was closed while the transports were being swapped: that
+				// close only reached the old transport, the new one is closed here
+				transport.Close()
 			}
 		} else {
 			cleanup()
